@@ -150,7 +150,7 @@ Section Main.
     width_ok l -> width_ok r -> same_set (cols l) (column_names a) -> same_set (cols r) (column_names b) ->
     join_keys_clean (column_names a) (column_names b) on_a on_b = true ->
     px_join (declared_cols p) on_a on_b jt l r = Some x ->
-    refines x (sem_join true on_a on_b jt l r) /\ width_ok x.
+    refines x (sem_join false on_a on_b jt l r) /\ width_ok x.
   Variable window_ok : bool.
   Hypothesis window_step : window_ok = true -> forall ops w u x cs,
     width_ok u -> same_set (cols u) cs -> (0 < nrows u)%nat ->
@@ -333,7 +333,7 @@ Section Main.
       { rewrite <- Cl'. apply refines_same_set, Rl. }
       { rewrite <- Cr'. apply refines_same_set, Rr. }
       split; [|exact Wx]. eapply refines_trans; [exact Rx|].
-      apply (refines_step2 (sem_join true on_a on_b jt)); try assumption.
+      apply (refines_step2 (sem_join false on_a on_b jt)); try assumption.
       + intros x0 y0 _ _ _ _ Ex Ey. apply join_eqv; assumption.
       + intros x0 y0 Cx Cy Px Py. split; [unfold sem_join; cbn [cols]; rewrite Cx, Cy; reflexivity|apply join_perm; assumption].
     - (* concat_rows *)
